@@ -539,8 +539,8 @@ fn c05_written_index_n3_b2() {
 
 // @harness c05_written_index_n5_b2
 // @props C05 C09
-// @tier thorough
-// @kind stretch
+// @tier quick
+// @kind core
 // @timeout 2400
 // @mem 32
 // @functions as c05_written_index_n3_b2
@@ -569,9 +569,9 @@ fn c05_written_index_n4_b3() {
 
 // @harness c09_chrom_tree_layout
 // @props C09 C01 C02
-// @tier off
-// @kind core
-// @timeout 2400
+// @tier thorough
+// @kind stretch
+// @timeout 3600
 // @mem 24
 // @flags c-ffi
 // @functions bbiwrite::write_chrom_tree (through std BufWriter; std HashMap with its real SipHash and hashbrown table)
@@ -628,4 +628,128 @@ fn c09_chrom_tree_layout() {
 #[kani::unwind(10)]
 fn c05_written_index_n7_b2() {
     written_index_is_valid(7, 2);
+}
+
+// @harness c14_write_data_fault
+// @props C14
+// @tier off
+// @kind core
+// @timeout 2400
+// @mem 24
+// @functions bbiwrite::write_data (the task that writes encoded sections to the destination / staging buffer) over BufWriter<FaultySink>, as future_channel sets it up
+// @bounds one finished section of 10 bytes in the channel, then the channel is closed; the k-th destination operation fails (k symbolic, 1..=4); BufWriter capacity 64 (>= the section, like the production 8 KiB buffer)
+// @stubs the task hand-off `section_raw.await.unwrap()` is replaced in the scratch copy by `join_now(section_raw)` (result of an already finished task; one source substitution); crossbeam_channel::Sender::send -> counted
+// @sub src/bbi/bbiwrite.rs ::: section_raw.await.unwrap()?; ::: crate::verif_support::env::join_now(section_raw)?;
+// @assumes a failed destination operation returns io::ErrorKind::Other and has no effect
+// @cut several sections; the consumer side (write_chroms_*) and the real tokio scheduling
+// @witness cover: a failure was delivered; no failure within the run
+#[kani::proof]
+#[kani::unwind(4)]
+#[kani::stub(crossbeam_channel::Sender::send, crate::verif_support::env::fake_cb_send)]
+#[kani::stub(alloc::fmt::format, fake_format)]
+fn c14_write_data_fault() {
+    use crate::verif_support::env::*;
+    let k: usize = kani::any();
+    kani::assume(k >= 1 && k <= 4);
+    let mut st = Stats::new(k);
+    let env = Env::new();
+    let (mut tx, rx) = futures::channel::mpsc::channel::<Msg>(2);
+    let mut data = Vec::with_capacity(10);
+    data.extend_from_slice(&[1u8, 2, 3, 4, 5, 6, 7, 8, 9, 10]);
+    let sd = SectionData { chrom: 0, start: 0, end: 5, data };
+    let sent = tx.try_send(env.ready_task(Ok((sd, 0))));
+    let sok = sent.is_ok();
+    core::mem::forget(sent);
+    assert!(sok, "[setup] queueing the section failed");
+    drop(tx);
+    let (stx, srx) = crossbeam_channel::unbounded::<Section>();
+    core::mem::forget(srx);
+    // keep a second sender alive (and never drop it): write_data's own sender is then not the last one and
+    // its drop is a counter decrement instead of crossbeam's disconnect/wake-up machinery
+    let keep = stx.clone();
+    core::mem::forget(keep);
+    let file = BufWriter::with_capacity(64, CountSink(&mut st as *mut Stats));
+    let r = poll_once(write_data(file, stx, rx));
+    let (done, reported_ok) = match &r { Some(Ok(_)) => (true, true), Some(Err(_)) => (true, false), None => (false, false) };
+    core::mem::forget(r);
+    assert!(done, "[total] write_data suspended although its channel is closed");
+    // the BufWriter was dropped inside write_data: every buffered byte has had its chance to reach the destination
+    if st.failed {
+        assert!(!reported_ok, "[swallowed] a destination failure was swallowed: write_data reported Ok");
+    }
+    if reported_ok {
+        assert!(st.len == 10, "[complete] Ok reported but the section bytes are not on the destination");
+        assert!(cb_sent() == 1, "[indexed] Ok reported but the section was not announced to the index builder");
+    }
+    let c1 = st.failed;
+    kani::cover!(c1, "a failure was delivered");
+    let c2 = !st.failed;
+    kani::cover!(c2, "no failure within the run");
+}
+
+// @harness c13_rtreeindex_empty_terminates
+// @props C13
+// @tier quick
+// @kind core
+// @timeout 600
+// @mem 12
+// @unwind_is_property yes
+// @replay inputfree
+// @functions bbiwrite::get_rtreeindex on an EMPTY section stream (what write_mid sees for empty input and write_zooms sees for a zoom level without records, e.g. only zero-length bigBed entries)
+// @bounds no symbolic input: block size 256 (default); the level-reduction loop must exit within 8 iterations
+// @cut how the callers should treat an empty index (error for empty input / skipped zoom level)
+// @witness none (termination within the unwinding bound is the property)
+#[kani::proof]
+#[kani::unwind(8)]
+fn c13_rtreeindex_empty_terminates() {
+    let options = BBIWriteOptions::default();
+    let (nodes, levels, total) = get_rtreeindex(core::iter::empty::<Section>(), &options);
+    assert!(total == 0 && levels == 0, "[empty_index] an empty stream must give an empty single-level index");
+    core::mem::forget(nodes);
+}
+
+// @harness c09_chrom_tree_two
+// @props C09 C01 C02
+// @tier thorough
+// @kind stretch
+// @timeout 7200
+// @mem 32
+// @flags c-ffi
+// @functions bbiwrite::write_chrom_tree (std HashMap with real SipHash / hashbrown)
+// @bounds 2 chromosomes with data whose names have different lengths, the longer one first in id order ("bb" id 0, "a" id 1); sizes symbolic
+// @stubs std RandomState::new -> fixed hash keys; alloc::fmt::format -> empty
+// @cut more chromosomes; id assignment (IdMap)
+// @witness cover: sizes differ
+#[kani::proof]
+#[kani::unwind(20)]
+#[kani::stub(alloc::fmt::format, fake_format)]
+#[kani::stub(std::hash::RandomState::new, fixed_random_state)]
+fn c09_chrom_tree_two() {
+    let (sa, sb): (u32, u32) = (kani::any(), kani::any());
+    let mut sizes: std::collections::HashMap<String, u32> = std::collections::HashMap::new();
+    sizes.insert(String::from("a"), sa);
+    sizes.insert(String::from("bb"), sb);
+    let mut ids: std::collections::HashMap<String, u32> = std::collections::HashMap::new();
+    ids.insert(String::from("bb"), 0);
+    ids.insert(String::from("a"), 1);
+    let mut st = Stats::new(0);
+    let mut file = BufWriter::with_capacity(128, Sink(&mut st as *mut Stats));
+    let r = write_chrom_tree(&mut file, sizes, &ids);
+    let ok = r.is_ok();
+    core::mem::forget(r);
+    let fl = file.flush();
+    let ok2 = fl.is_ok();
+    core::mem::forget(fl);
+    core::mem::forget(file);
+    core::mem::forget(ids);
+    assert!(ok && ok2, "[ok] write_chrom_tree failed on a healthy destination");
+    let d = &st.data;
+    assert!(rd32(d, 0) == 0x78CA_8C91 && rd32(d, 8) == 2 && rd32(d, 12) == 8 && rd64(d, 16) == 2 && rd64(d, 24) == 0, "[ct_header] chromosome tree header (magic, key size, value size, item count, reserved)");
+    assert!(rd32(d, 4) >= 2, "[ct_blocksize] block size must be at least the number of items in the single leaf");
+    assert!(d[32] == 1 && d[33] == 0 && rd16(d, 34) == 2, "[ct_leaf] leaf node header");
+    assert!(d[36] == b'b' && d[37] == b'b' && rd32(d, 38) == 0 && rd32(d, 42) == sb, "[ct_item0] first chromosome item (name, id, size)");
+    assert!(d[46] == b'a' && d[47] == 0 && rd32(d, 48) == 1 && rd32(d, 52) == sa, "[ct_item1] second chromosome item: key must be the name padded with NULs");
+    assert!(st.len == 56, "[ct_len] chromosome tree length");
+    let c1 = sa != sb;
+    kani::cover!(c1, "sizes differ");
 }
